@@ -366,6 +366,10 @@ pub fn c11_families(tier: &str) -> Vec<Family> {
     let mut v = primed_small("w12", 3);
     v.extend(route_small("w12", true));
     v.extend(hist_small("w12", false));
+    // the weighted coefficients are normalised by the largest weight: invariant under scaling all weights
+    v.push(fam(US, 3, "wtiny", &ORD_ONE));
+    v.push(fam(DS, 3, "wtiny", &ORD_ONE));
+    v.push(fam(US, 4, "whuge", &ORD_ONE));
     if tier == "quick" {
         for n in 0..=3 {
             for k in kinds_all() {
